@@ -1089,6 +1089,11 @@ func (x *g) anyExpr(d int) expr {
 		x.feat("newer-syntax-bait")
 		form := x.pick("baitform2", []string{"V==null?undefined:V.p", "V===null||V===undefined?undefined:V.p.q", "V==null?void 0:V.m()", "V!=null?V.p:undefined", "V==null?W:V", "V!=null?V:W", "V===null||V===void 0?W:V", "Math.pow(W,2)", "Math.pow(2,W)"})
 		w := x.par(x.numExpr(d-1), 1)
+		if strings.HasPrefix(form, "Math.pow(W") && (strings.Contains(w, "++") || strings.Contains(w, "--")) && x.guard("noPrefixUpdateExpBase") {
+			// known finding: Math.pow(++a,2) becomes ++a**2
+			x.prog.Excluded["noPrefixUpdateExpBase"]++
+			w = x.numLit()
+		}
 		return expr{strings.ReplaceAll(strings.ReplaceAll(form, "W", w), "V", v), 2}
 	case 0, 1, 2:
 		return x.numExpr(d)
